@@ -217,6 +217,26 @@ def _confirm(path):
         return {"identical": False, "reproduced": False, "error": f"{type(exc).__name__}: {exc}"}
 
 
+def _sweep_scratch():
+    """Remove the scratch directories of processes that no longer exist (terminated pool workers never reach their atexit hook)."""
+    import shutil
+    from . import gen
+    base = gen.scratch_root().parent
+    for d in base.glob("specmc-*"):
+        try:
+            pid = int(d.name.split("-", 1)[1])
+        except ValueError:
+            continue
+        if pid == os.getpid():
+            continue
+        try:
+            os.kill(pid, 0)
+        except ProcessLookupError:
+            shutil.rmtree(d, ignore_errors=True)
+        except OSError:
+            pass
+
+
 def run_check(check_id, tier, seed):
     t0 = time.time()
     prop = check_id.upper()
@@ -244,6 +264,7 @@ def run_check(check_id, tier, seed):
     finally:
         pool.terminate()
         pool.join()
+        _sweep_scratch()
 
     # ---- aggregate
     known = findings.load(prop)
